@@ -1,5 +1,6 @@
 import MetadorModel.Py.DrvLib
 import MetadorModel.Model.Paths
+import MetadorModel.Model.PathsAlias
 /-! Driver for the reserved-namespace model (C08). Strings are hex-encoded tokens.
 
 ```
@@ -15,6 +16,11 @@ len <g>            len(group)                                -> len n
 visit <g>          sorted names presented by visit           -> visit hex…
 in <g> <p>         p in group                                -> T | F | rej
 call <m> <p>…      path guards of a call with these path-typed arguments -> rej | pass
+callv <m> <tok>…   the same with typed arguments: s<hex> str (or subclass), b<hex> bytes-like,
+                   o<hex> any other type                      -> rej | pass
+setv <kind> <tok>  group[tok] = value of kind soft|ext|hard|ref|regref (link / reference
+                   classes) | dtype (numpy.dtype) | dtypeobj (h5py.Datatype) | refarr (array of references = data) | node
+                                                              -> rej | pass
 ```
 -/
 open MetadorModel MetadorModel.Paths MetadorModel.Drv
@@ -37,6 +43,33 @@ def unhexAll : List String → Option (List Str)
     let x ← unhexL a
     let r ← unhexAll l
     pure (x :: r)
+
+/-- typed path token: first character `s` / `b` / `o`, then the hex text -/
+def unTok (t : String) : Option PathVal :=
+  match t.toList with
+  | 's' :: r => (unhexL (String.ofList r)).map PathVal.str
+  | 'b' :: r => (unhexL (String.ofList r)).map PathVal.bytes
+  | 'o' :: r => (unhexL (String.ofList r)).map fun _ => PathVal.other
+  | _ => none
+
+def unTokAll : List String → Option (List PathVal)
+  | [] => some []
+  | a :: l => do
+    let x ← unTok a
+    let r ← unTokAll l
+    pure (x :: r)
+
+def setKind : String → Option SetVal
+  | "soft" => some (.softLink [])
+  | "ext" => some (.externalLink [])
+  | "hard" => some .hardLink
+  | "ref" => some .reference
+  | "regref" => some .reference
+  | "refarr" => some .data
+  | "node" => some .node
+  | "dtype" => some .namedType
+  | "dtypeobj" => some .committedType
+  | _ => none
 
 def step (s : Raw) : List String → Raw × String
   | ["int", p] =>
@@ -103,6 +136,20 @@ def step (s : Raw) : List String → Raw × String
           | .ok () => "pass"
           | .error _ => "rej")
     | none => (s, "bad-op")
+  | "callv" :: _m :: args =>
+    match unTokAll args with
+    | some ps =>
+      (s, match runGuardsV false false ps ((List.range ps.length).map Guard.path) with
+          | .ok () => "pass"
+          | .error _ => "rej")
+    | none => (s, "bad-op")
+  | ["setv", k, nm] =>
+    match setKind k, unTok nm with
+    | some v, some p =>
+      (s, match setitemV (linkTypes ++ typeTypes) false false (fun (u : Unit) _ _ => .ok u) () p v with
+          | .ok _ => "pass"
+          | .error _ => "rej")
+    | _, _ => (s, "bad-op")
   | _ => (s, "bad-op")
 
 def main : IO Unit := Drv.run ([] : Raw) step
